@@ -42,7 +42,9 @@ def _cache_get(key):
     if os.path.exists(p):
         try:
             with open(p, "rb") as f:
-                return pickle.load(f)
+                got = pickle.load(f)
+            os.utime(p, None)          # recently used entries survive the pruning of scratch-copy entries
+            return got
         except Exception:
             return None
     return None
